@@ -249,7 +249,8 @@ def gen_cases(ctx, n):
         node = get_at(host.query, path)
         if kind == "meth":
             # the templated getAttribute is an ATLAS (xAOD jet) refusal; elsewhere it is an ordinary unknown method
-            name, build, py = ctx.rng.choice([g for g in GRAFTS_METH if g[0] != "getAttribute" or b == "atlas"])
+            # … and it is only refused on a plain-name receiver (on an indexed element it is accepted: listed finding)
+            name, build, py = ctx.rng.choice([g for g in GRAFTS_METH if g[0] != "getAttribute" or (b == "atlas" and node["o"].get("k") == "var")])
             new = build(node["o"], node["n"])
         else:
             name, build, py = ctx.rng.choice(GRAFTS_NUM)
